@@ -485,6 +485,8 @@ def run(R):
     items.append(("division",))
     items.append(("wrapper",))
     R.encode(stats.ChannelStats.push_data, stats.ChannelStats.__add__)
+    from .. import kvalid
+    kvalid.validate(R, ["update_moments", "compute_online_moments", "compute_online_moments_basic", "add_online_moments"])
     parts = R.pmap(work, items)
     R.vacuity_witness("c10", sum(p.reached for p in parts) > 0)
     # twin: a wrong claim (m2 equals the *sample* variance numerator times 2) must be refuted
